@@ -8,6 +8,9 @@ Decides the glue; agreement of cobs::decode_in_place with the COBS definition on
 """
 import glue
 import lin
+import pan
+import panlin
+import summ2
 import summ
 import sym
 import tbl
@@ -55,32 +58,27 @@ def run(run_, ctx):
                     if v != "DeserializeBadEncoding":
                         bad.append("COBS decode failure returns %s, expected Err(DeserializeBadEncoding)" % sym.show(p.ret))
         run_.check(not bad, "MX", name + " error kind", bad[0] if bad else "decode error -> DeserializeBadEncoding", f.where(), found=bad)
-        # P: panic sites (one instance per distinct site, all paths through it must be discharged)
-        sites = {}
-        for p in paths:
-            if p.status in ("diverge", "panic"):
+        # P: panic sites (one instance per distinct site, all paths through it must be discharged): linear goals from the path's own
+        # guards plus the contract of the cobs calls made earlier on the path (however the slicing is written)
+        eng2 = sym.Engine(F, max_visits=2, models=sym.SLICE_MODELS, inline=summ2.inline_local, max_depth=10)
+        sites, paths2, ub = pan.collect(F, f, engine=eng2)
+        for p in paths2:
+            if p.status in ("panic",):
                 run_.bad("P", name + " panic path", "a path ends in a panic (%s)" % p.status, f.where())
-            rep = [e for e in tbl.residual_calls(p) if e["key"].startswith("cobs::decode_in_place")]
-            R = ("okval", norm(rep[0]["result"])) if rep else None
-            cn = summ.Canon(F, p, f)
-            for e in p.events:
-                if e["k"] == "assert" and e["static"] is not True and e["kind"] in ("Overflow", "BoundsCheck"):
-                    site = "%s %s(%s, %s)" % (e["kind"], e.get("op") or "", cn.t(norm(e.get("a") or e.get("index"))), cn.t(norm(e.get("b") or e.get("len"))))
-                    how = discharge_assert(p, e, R)
-                elif e["k"] == "call" and (e["key"].endswith("::split_at_mut") or e["key"].endswith("Index::index")):
-                    arg = cn.t(norm(e["args"][1]))
-                    site = "%s(%s)" % (e["key"].split("::")[-1], arg)
-                    how = ("external contract: " + CONTRACT) if arg in CONTRACT_OPERANDS else None
-                else:
-                    continue
-                sites.setdefault(site, []).append(how)
-        for site, hows in sorted(sites.items()):
-            key = "%s %s" % (name, site)
+        groups = {}
+        for st_ in sites:
+            groups.setdefault(st_.key(), []).append(st_)
+        for key, ss in sorted(groups.items()):
+            hows = []
+            for st_ in ss:
+                d = panlin.discharged(st_.path, st_.ev, contract_facts(st_.path))
+                hows.append("linear: guards on the path + %s" % CONTRACT if d else None)
             if all(hows):
-                run_.ok("P", key, hows[0], f.where(), method=hows[0].split(":")[0])
+                run_.ok("P", key, hows[0], f.where(), method="LIN")
             else:
-                run_.bad("P", key, "panic site not discharged on %d path(s): %s" % (sum(1 for h in hows if not h), site), f.where())
-    run_.floor("P", 5)
+                bad = [x for x, h in zip(ss, hows) if not h][0]
+                run_.bad("P", key, "panic site not discharged on %d of %d path(s): %s %s" % (sum(1 for h in hows if not h), len(ss), bad.kind, bad.text), f.where())
+    run_.floor("P", 4)
     # R/S via the C06 semantic check on take_from_bytes_cobs
     sub = _Only(run_)
     c06_run_dx(sub, ctx)
@@ -90,6 +88,21 @@ def run(run_, ctx):
         "implies src_used < len, so src_used + 1 cannot overflow) or by the listed external contract of the cobs report; the remainder offset "
         "identity and the forwarding of the decoded prefix to from_bytes are proved as in C06.")
     run_.trusted += [CONTRACT]
+
+
+def contract_facts(p):
+    """documented contract of the cobs calls made on this path (hypotheses, listed in the trusted base)"""
+    out = []
+    for e in tbl.residual_calls(p):
+        k = e["key"] or ""
+        if k == "cobs::decode_in_place_report":
+            R = ("okval", norm(e["result"]))
+            src, dst = ("getf", R, "src_used"), ("getf", R, "dst_used")
+            ln = ("len", norm(e["args"][0]))
+            out += [lin.ge(src, dst), lin.ge(ln, src)]
+        elif k == "cobs::decode_in_place":
+            out.append(lin.ge(("len", norm(e["args"][0])), ("okval", norm(e["result"]))))
+    return out
 
 
 def discharge_assert(p, e, R):
